@@ -128,6 +128,7 @@ func initLeftOpenRange() {
 	RegisterNativeClass("Std::LeftOpenRange", "value.LeftOpenRangeClass")
 
 	LeftOpenRangeIteratorClass = NewClass()
+	LeftOpenRangeIteratorClass.IncludeMixin(ResettableIteratorBaseMixin)
 	LeftOpenRangeClass.AddConstantString("Iterator", Ref(LeftOpenRangeIteratorClass))
 	RegisterNativeClass("Std::LeftOpenRange::Iterator", "value.LeftOpenRangeIteratorClass")
 }
